@@ -674,6 +674,97 @@ let run_case (t : string list) : string =
       in
       go MutualDial.init [];
       Stdlib.String.concat " " (Stdlib.List.rev !res)
+  | "dialer" :: rest ->
+      (* dialer own=.. step=.. maxb=.. maxout=.. P=.. ticks=.. | p:aff:a,a;... | t:addr:up|down ...
+         environment: every dial completes before the next tick; an address is reachable for peer p iff it is
+         up at the tick the dial started and owned by p (address id = owning peer id, ids >= 100 are nobody's) *)
+      let rec split acc l =
+        match l with "|" :: t -> (Stdlib.List.rev acc, t) | x :: t -> split (x :: acc) t | [] -> (Stdlib.List.rev acc, [])
+      in
+      let head, r1 = split [] rest in
+      let known_s, avail_s = split [] r1 in
+      let kvs = Stdlib.List.filter_map (fun s -> match Stdlib.String.split_on_char '=' s with [ k; v ] -> Some (k, v) | _ -> None) head in
+      let g k = n_of_string (Stdlib.List.assoc k kvs) in
+      let cfg = { Dialer.own = g "own"; backoff_step = g "step"; max_backoff = g "maxb"; max_outstanding = g "maxout" } in
+      let period = g "P" in
+      let ticks = int_of_string (Stdlib.List.assoc "ticks" kvs) in
+      let known =
+        Stdlib.List.map
+          (fun e ->
+            match Stdlib.String.split_on_char ':' e with
+            | [ p; aff; addrs ] ->
+                { Dialer.pi_id = n_of_string p;
+                  pi_aff = (match aff with "high" -> Dialer.High | "allowed" -> Dialer.Allowed | _ -> Dialer.Never);
+                  pi_addrs =
+                    (if addrs = "" then []
+                     else Stdlib.List.map n_of_string (Stdlib.String.split_on_char ',' addrs)) }
+            | _ -> failwith "bad known entry")
+          (Stdlib.List.filter (fun s -> s <> "") (Stdlib.String.split_on_char ';' (Stdlib.String.concat "" known_s)))
+      in
+      (* availability events: (time, addr, up) sorted by time *)
+      let avail =
+        Stdlib.List.map
+          (fun e ->
+            match Stdlib.String.split_on_char ':' e with
+            | [ t; a; st ] -> (int_of_string t, int_of_string a, st = "up")
+            | _ -> failwith "bad avail")
+          avail_s
+      in
+      let up_at addr t =
+        Stdlib.List.fold_left (fun acc (te, a, u) -> if a = addr && te <= t then u else acc) (addr < 100) avail
+      in
+      let went_down_between addr t0 t1 =
+        Stdlib.List.exists (fun (te, a, u) -> a = addr && (not u) && te > t0 && te <= t1) avail
+      in
+      let st = ref { Dialer.pending = []; backoff = [] } in
+      (* connected: peer -> (addr, since) ; last dials: peer -> (addr, tick time) *)
+      let connected : (int, int * int) Hashtbl.t = Hashtbl.create 8 in
+      let lastdial : (int, int * int) Hashtbl.t = Hashtbl.create 8 in
+      let out = ref [] in
+      for i = 0 to ticks - 1 do
+        let now = i * int_of_n period in
+        (* connections whose node went down are lost *)
+        Hashtbl.filter_map_inplace
+          (fun _p (a, since) -> if went_down_between a since now then None else Some (a, since))
+          connected;
+        (* results of the dials started at the previous tick *)
+        let results p =
+          let p = int_of_n p in
+          match Hashtbl.find_opt lastdial p with
+          | None -> None
+          | Some (a, ts) ->
+              (* the dial completes right after the tick at which it started *)
+              Some (a = p && up_at a ts)
+        in
+        Hashtbl.iter
+          (fun p (a, ts) -> if a = p && up_at a ts && not (went_down_between a ts now) then Hashtbl.replace connected p (a, ts))
+          lastdial;
+        let active = Hashtbl.fold (fun p _ acc -> n_of_int p :: acc) connected [] in
+        let (st', dials), elig = Dialer.check cfg (n_of_int now) results known active N0 !st in
+        st := st';
+        Hashtbl.reset lastdial;
+        Stdlib.List.iter (fun (p, a) -> Hashtbl.replace lastdial (int_of_n p) (int_of_n a, now)) dials;
+        let d = Stdlib.List.sort compare (Stdlib.List.map (fun (p, a) -> (int_of_n p, int_of_n a)) dials) in
+        let e = Stdlib.List.sort compare (Stdlib.List.map int_of_n elig) in
+        out :=
+          Printf.sprintf "t%d:%s:e%s:c%s" i
+            (Stdlib.String.concat "," (Stdlib.List.map (fun (p, a) -> Printf.sprintf "%d@%d" p a) d))
+            (Stdlib.String.concat "," (Stdlib.List.map string_of_int e))
+            (Stdlib.String.concat "," (Stdlib.List.map string_of_int (Stdlib.List.sort compare (Stdlib.List.map int_of_n active))))
+          :: !out
+      done;
+      Stdlib.String.concat " " (Stdlib.List.rev !out)
+  | [ "backoff"; step; maxb; n ] ->
+      let cfg = { Dialer.own = N0; backoff_step = n_of_string step; max_backoff = n_of_string maxb; max_outstanding = N0 } in
+      let n = int_of_string n in
+      let out = ref [] in
+      let att = ref N0 in
+      for _ = 1 to n do
+        let b = Dialer.b_update cfg N0 !att in
+        att := b.Dialer.b_attempts;
+        out := (string_of_n b.Dialer.b_attempts ^ ":" ^ string_of_n b.Dialer.b_deadline) :: !out
+      done;
+      Stdlib.String.concat " " (Stdlib.List.rev !out)
   | [ "version"; v ] ->
       (match Wire.version_new (n_of_string v) with
        | Base.Ok v -> "OK " ^ string_of_n v
